@@ -4110,6 +4110,77 @@ func (d *Document) parseAnchorDrawing(decoder *xml.Decoder, startElement xml.Sta
 					return nil, err
 				}
 				anchor.Graphic = graphic
+			case "simplePos":
+				anchor.SimplePosition = &SimplePosition{
+					X: getAttributeValue(t.Attr, "x"),
+					Y: getAttributeValue(t.Attr, "y"),
+				}
+				if err := d.skipElement(decoder, t.Name.Local); err != nil {
+					return nil, err
+				}
+			case "positionH":
+				align, offset, err := d.parseDrawingPosition(decoder, "positionH")
+				if err != nil {
+					return nil, err
+				}
+				anchor.PositionH = &HorizontalPosition{
+					RelativeFrom: getAttributeValue(t.Attr, "relativeFrom"),
+					Align:        align,
+					PosOffset:    offset,
+				}
+			case "positionV":
+				align, offset, err := d.parseDrawingPosition(decoder, "positionV")
+				if err != nil {
+					return nil, err
+				}
+				anchor.PositionV = &VerticalPosition{
+					RelativeFrom: getAttributeValue(t.Attr, "relativeFrom"),
+					Align:        align,
+					PosOffset:    offset,
+				}
+			case "effectExtent":
+				anchor.EffectExtent = parseEffectExtentAttrs(t.Attr)
+				if err := d.skipElement(decoder, t.Name.Local); err != nil {
+					return nil, err
+				}
+			case "wrapTight":
+				polygon, _, err := d.parseWrapChildren(decoder, "wrapTight")
+				if err != nil {
+					return nil, err
+				}
+				anchor.WrapTight = &WrapTight{
+					WrapText:    getAttributeValue(t.Attr, "wrapText"),
+					DistL:       getAttributeValue(t.Attr, "distL"),
+					DistR:       getAttributeValue(t.Attr, "distR"),
+					WrapPolygon: polygon,
+				}
+			case "wrapThrough":
+				polygon, _, err := d.parseWrapChildren(decoder, "wrapThrough")
+				if err != nil {
+					return nil, err
+				}
+				anchor.WrapThrough = &WrapThrough{
+					WrapText:    getAttributeValue(t.Attr, "wrapText"),
+					DistL:       getAttributeValue(t.Attr, "distL"),
+					DistR:       getAttributeValue(t.Attr, "distR"),
+					WrapPolygon: polygon,
+				}
+			case "wrapTopAndBottom":
+				_, effectExtent, err := d.parseWrapChildren(decoder, "wrapTopAndBottom")
+				if err != nil {
+					return nil, err
+				}
+				anchor.WrapTopAndBottom = &WrapTopAndBottom{
+					DistT:        getAttributeValue(t.Attr, "distT"),
+					DistB:        getAttributeValue(t.Attr, "distB"),
+					EffectExtent: effectExtent,
+				}
+			case "cNvGraphicFramePr":
+				framePr, err := d.parseCNvGraphicFramePr(decoder)
+				if err != nil {
+					return nil, err
+				}
+				anchor.CNvGraphicFramePr = framePr
 			case "wrapNone":
 				anchor.WrapNone = &WrapNone{}
 				if err := d.skipElement(decoder, t.Name.Local); err != nil {
@@ -4143,6 +4214,124 @@ func (d *Document) parseAnchorDrawing(decoder *xml.Decoder, startElement xml.Sta
 		case xml.EndElement:
 			if t.Name.Local == "anchor" {
 				return anchor, nil
+			}
+		}
+	}
+}
+
+// parseEffectExtentAttrs 从属性构造效果范围
+func parseEffectExtentAttrs(attrs []xml.Attr) *EffectExtent {
+	return &EffectExtent{
+		L: getAttributeValue(attrs, "l"),
+		T: getAttributeValue(attrs, "t"),
+		R: getAttributeValue(attrs, "r"),
+		B: getAttributeValue(attrs, "b"),
+	}
+}
+
+// parseDrawingPosition 解析 wp:positionH / wp:positionV 的子元素（wp:align 或 wp:posOffset）
+func (d *Document) parseDrawingPosition(decoder *xml.Decoder, elementName string) (*PosAlign, *PosOffset, error) {
+	var align *PosAlign
+	var offset *PosOffset
+
+	for {
+		token, err := decoder.Token()
+		if err != nil {
+			return nil, nil, WrapError("parse_drawing_position", err)
+		}
+
+		switch t := token.(type) {
+		case xml.StartElement:
+			switch t.Name.Local {
+			case "align":
+				value, err := d.readElementText(decoder, "align")
+				if err != nil {
+					return nil, nil, err
+				}
+				align = &PosAlign{Value: value}
+			case "posOffset":
+				value, err := d.readElementText(decoder, "posOffset")
+				if err != nil {
+					return nil, nil, err
+				}
+				offset = &PosOffset{Value: value}
+			default:
+				if err := d.skipElement(decoder, t.Name.Local); err != nil {
+					return nil, nil, err
+				}
+			}
+		case xml.EndElement:
+			if t.Name.Local == elementName {
+				return align, offset, nil
+			}
+		}
+	}
+}
+
+// parseWrapChildren 解析环绕元素的子元素（wp:wrapPolygon、wp:effectExtent）
+func (d *Document) parseWrapChildren(decoder *xml.Decoder, elementName string) (*WrapPolygon, *EffectExtent, error) {
+	var polygon *WrapPolygon
+	var effectExtent *EffectExtent
+
+	for {
+		token, err := decoder.Token()
+		if err != nil {
+			return nil, nil, WrapError("parse_wrap_children", err)
+		}
+
+		switch t := token.(type) {
+		case xml.StartElement:
+			switch t.Name.Local {
+			case "wrapPolygon":
+				polygon = &WrapPolygon{}
+			case "start":
+				if polygon != nil {
+					polygon.Start = &PolygonStart{X: getAttributeValue(t.Attr, "x"), Y: getAttributeValue(t.Attr, "y")}
+				}
+			case "lineTo":
+				if polygon != nil {
+					polygon.LineTo = append(polygon.LineTo, PolygonLineTo{X: getAttributeValue(t.Attr, "x"), Y: getAttributeValue(t.Attr, "y")})
+				}
+			case "effectExtent":
+				effectExtent = parseEffectExtentAttrs(t.Attr)
+			}
+		case xml.EndElement:
+			if t.Name.Local == elementName {
+				return polygon, effectExtent, nil
+			}
+		}
+	}
+}
+
+// parseCNvGraphicFramePr 解析非可视图形框架属性
+func (d *Document) parseCNvGraphicFramePr(decoder *xml.Decoder) (*CNvGraphicFramePr, error) {
+	framePr := &CNvGraphicFramePr{}
+
+	for {
+		token, err := decoder.Token()
+		if err != nil {
+			return nil, WrapError("parse_c_nv_graphic_frame_pr", err)
+		}
+
+		switch t := token.(type) {
+		case xml.StartElement:
+			if t.Name.Local == "graphicFrameLocks" {
+				framePr.GraphicFrameLocks = &GraphicFrameLocks{
+					Xmlns:          "http://schemas.openxmlformats.org/drawingml/2006/main",
+					NoChangeAspect: getAttributeValue(t.Attr, "noChangeAspect"),
+					NoCrop:         getAttributeValue(t.Attr, "noCrop"),
+					NoMove:         getAttributeValue(t.Attr, "noMove"),
+					NoResize:       getAttributeValue(t.Attr, "noResize"),
+					NoRot:          getAttributeValue(t.Attr, "noRot"),
+					NoSelect:       getAttributeValue(t.Attr, "noSelect"),
+				}
+			}
+			if err := d.skipElement(decoder, t.Name.Local); err != nil {
+				return nil, err
+			}
+		case xml.EndElement:
+			if t.Name.Local == "cNvGraphicFramePr" {
+				return framePr, nil
 			}
 		}
 	}
